@@ -11,6 +11,19 @@ def last(n):
     return n.split("::")[-1]
 
 
+def mt_fields(prog):
+    """names of MetaType's two private members, told apart by type: (the `fn() -> Type` pointer, the TypeId)"""
+    a = prog.adts.get(MT)
+    fnf = idf = None
+    if a is not None and a["kind"] == "struct":
+        fs = a["variants"][0]["fields"]
+        fn_ = [f["name"] for f in fs if prog.ty(f["ty"])["k"] == "fnptr"]
+        id_ = [f["name"] for f in fs if prog.ty(f["ty"])["s"] == "core::any::TypeId"]
+        if len(fs) == 2 and len(fn_) == 1 and len(id_) == 1:
+            fnf, idf = fn_[0], id_[0]
+    return fnf or "fn_type_info", idf or "type_id"
+
+
 # ------------------------------------------------------------------ R5.1 / R16.2
 def check_metatype_new(chk, prog, cfg, rule="R5.1"):
     chk.rule(rule, "MetaType::new::<T>() stores fn_type_info = <T as TypeInfo>::type_info and type_id = "
@@ -22,9 +35,10 @@ def check_metatype_new(chk, prog, cfg, rule="R5.1"):
     rt = b.return_term()
     ok = False
     detail = path_str(rt)
-    if is_adt_agg(rt, MT):
-        f = agg_field(rt, "fn_type_info")
-        tid = agg_field(rt, "type_id")
+    FNF, IDF = mt_fields(prog)
+    if is_adt_agg(rt, MT) and agg_field(rt, FNF) is not None and agg_field(rt, IDF) is not None:
+        f = agg_field(rt, FNF)
+        tid = agg_field(rt, IDF)
         f0 = f[2] if f[0] == "cast" else f
         fn_sig = prog.fns[b.path]
         tparam = None
@@ -50,11 +64,11 @@ def check_metatype_new(chk, prog, cfg, rule="R5.1"):
                "MetaType values are built in: %s" % sites, cfg)
     b2 = cr.anchor(chk, prog, "meta_type::MetaType::type_id")
     if b2 is not None:
-        chk.expect(cr.self_field(b2, b2.return_term(), "type_id"), rule, "MetaType::type_id", b2.where(), path_str(b2.return_term()), cfg)
+        chk.expect(cr.self_field(b2, b2.return_term(), IDF), rule, "MetaType::type_id", b2.where(), path_str(b2.return_term()), cfg)
     b3 = cr.anchor(chk, prog, "meta_type::MetaType::type_info")
     if b3 is not None:
         rt = b3.return_term()
-        ok = rt[0] == "call" and rt[1]["indirect"] and rt[1]["fnop"] is not None and cr.self_field(b3, rt[1]["fnop"], "fn_type_info") and not rt[2]
+        ok = rt[0] == "call" and rt[1]["indirect"] and rt[1]["fnop"] is not None and cr.self_field(b3, rt[1]["fnop"], FNF) and not rt[2]
         chk.expect(ok, rule, "MetaType::type_info", b3.where(), "calls %s" % (path_str(rt[1]["fnop"]) if rt[0] == "call" and rt[1]["fnop"] else path_str(rt)), cfg)
 
 
@@ -105,8 +119,10 @@ def check_metatype_cmp(chk, prog, cfg, rule="R16.1"):
             a1 = _sr.struct(prog, MT, "self")
             a2 = _sr.struct(prog, MT, "other") if nops == 2 else S_("arg2")
             v = r.run(fn[0]["path"], [a1, a2])
-            second = S_("other.type_id") if nops == 2 else S_("arg2")
-            ok = v == S_(meth.upper()) and r.log == [(meth, S_("self.type_id"), second)]
+            IDF_ = mt_fields(prog)[1]
+            second = S_("other." + IDF_) if nops == 2 else S_("arg2")
+            # (`hash` answers nothing: `self.id.hash(state)` and `self.id.hash(state);` are the same function)
+            ok = (v == S_(meth.upper()) or (meth == "hash" and v == ("tuple", []))) and r.log == [(meth, S_("self." + IDF_), second)]
             detail = "%s = %s over %s" % (meth, _sr.show(v), [(x[0], _sr.show(x[1]), _sr.show(x[2])) for x in r.log])
         except _ai.Unrecognised as e:
             ok, detail = False, "cannot interpret: %s" % e
@@ -139,7 +155,7 @@ def check_metatype_cmp(chk, prog, cfg, rule="R16.1"):
         r = R(prog)
         try:
             v = r.run(fn[0]["path"], [symrun.struct(prog, MT, "self"), symrun.struct(prog, MT, "other")])
-            ok = absint.opt_view(v) == ("Some", S("CMP")) and r.log == [("cmp", S("self.type_id"), S("other.type_id"))]
+            ok = absint.opt_view(v) == ("Some", S("CMP")) and r.log == [("cmp", S("self." + mt_fields(prog)[1]), S("other." + mt_fields(prog)[1]))]
             detail = "partial_cmp(self, other) = %s with comparisons %s" % (symrun.show(v), [(x[0], symrun.show(x[1]), symrun.show(x[2])) for x in r.log])
         except absint.Unrecognised as e:
             ok, detail = False, "cannot interpret: %s" % e
@@ -156,8 +172,8 @@ def check_metatype_cmp(chk, prog, cfg, rule="R16.1"):
         try:
             v = r.run(b.path, [symrun.struct(prog, MT, "self")])
             PH = (("tid", "core::marker::PhantomData<()>"), ("tid-of-identity", "core::marker::PhantomData<()>"))
-            ok = v == S("EQ") and len(r.log) == 1 and r.log[0][0] == "eq" and {r.log[0][1], r.log[0][2]} & {S("self.type_id")} \
-                and ({r.log[0][1], r.log[0][2]} - {S("self.type_id")}) <= set(PH) and r.log[0][1] != r.log[0][2]
+            ok = v == S("EQ") and len(r.log) == 1 and r.log[0][0] == "eq" and {r.log[0][1], r.log[0][2]} & {S("self." + mt_fields(prog)[1])} \
+                and ({r.log[0][1], r.log[0][2]} - {S("self." + mt_fields(prog)[1])}) <= set(PH) and r.log[0][1] != r.log[0][2]
             detail = "is_phantom(self) = %s with comparisons %s" % (symrun.show(v), [(x[0], symrun.show(x[1]), symrun.show(x[2])) for x in r.log])
         except absint.Unrecognised as e:
             ok, detail = False, "cannot interpret: %s" % e
